@@ -152,7 +152,7 @@ extern int mpt_graph_set(MPT_STRUCT(graph) *gr, const char *name, MPT_INTERFACE(
 				return 0;
 			}
 			mpt_graph_fini(gr);
-			mpt_graph_init(gr, from);
+			mpt_graph_init(gr, len ? from : 0);
 			return len <= 0 ? len : 1;
 		}
 		return MPT_ERROR(BadType);
